@@ -63,6 +63,7 @@ def extract():
     raw = {}        # class name -> dict(bases, body defs, file)
     order = []
     first, second = {}, {}
+    flags = {"kw_normalised": False}
     for path in _files():
         tree = ast.parse(open(path).read())
         for node in tree.body:
@@ -75,6 +76,10 @@ def extract():
                     if st.name not in defines:
                         defines.append(st.name)
                     sigs[st.name] = _params(st)
+                    if node.name == ROOT and st.name == "__torch_function__":
+                        # keyword operands (`other=op`, `input=x`) are moved into the positional tuple iff the body pops from kwargs
+                        flags["kw_normalised"] = any(isinstance(x, ast.Call) and isinstance(x.func, ast.Attribute) and x.func.attr == "pop"
+                                                     for x in ast.walk(st))
                     # decorators are applied bottom-up
                     for dec in reversed(st.decorator_list):
                         if isinstance(dec, ast.Call) and isinstance(dec.func, ast.Name) and dec.func.id in DECOS and dec.args:
@@ -127,7 +132,8 @@ def extract():
                             "sigs": {}, "file": None, "operator": False})
     # `object` first, then bases before subclasses where the source order allows; order is irrelevant to the model
     classes.sort(key=lambda k: 0 if k["name"] == "object" else 1)
-    return {"first": list(first.items()), "second": list(second.items()), "classes": classes, "interest": interest}
+    return {"first": list(first.items()), "second": list(second.items()), "classes": classes, "interest": interest,
+            "kw_normalised": flags["kw_normalised"]}
 
 
 def render(tab):
@@ -154,6 +160,8 @@ def render(tab):
         for m, ps in c["sigs"].items():
             rows.append(f"  ({lean_str(c['name'])}, {lean_str(m)}, [{', '.join(map(lean_str, ps))}])")
     out.append(",\n".join(rows) + "]")
+    out += ["", "/-- `__torch_function__` moves operands passed by keyword (`input=`, `other=`) into the positional tuple. -/",
+            f"def kwNormalised : Bool := {'true' if tab['kw_normalised'] else 'false'}"]
     out += ["", "end LinOp.Generated.C15", ""]
     return "\n".join(out)
 
